@@ -1011,6 +1011,11 @@ func RandPiece(r *rand.Rand, o GenOpts) Piece {
 func RandBPM(r *rand.Rand) uint64 {
 	switch r.Intn(10) {
 	case 0:
+		if r.Intn(2) == 0 {
+			// next to the tempi whose microseconds per quarter note are exactly halfway between two whole numbers
+			u := uint64(1 + r.Intn(8))
+			return 120000000/(2*u+1) + uint64(r.Intn(5)) - 2
+		}
 		return []uint64{4, 5, 7, 60, 100, 120, 59999999, 60000000, 16777216, 3600}[r.Intn(10)]
 	case 1, 2, 3:
 		// log uniform
